@@ -61,7 +61,10 @@ int main(int argc, char **argv)
             int deg = (int)a[0];
             double ts = dur(a[1]);
             double p0 = (double)b[0], p1 = (double)b[1], v0 = (double)b[2], v1 = (double)b[3], a0 = (double)b[4], a1 = (double)b[5], j0 = (double)b[6], j1 = (double)b[7];
-            double c[8] = {0}, c1[8] = {0}, c2[8] = {0}, c3[8] = {0};
+            /* coefficient arrays of exactly the documented lengths (deg+1, deg, deg-1, deg-2) on the heap: one element too many
+               written by an accessor aborts under ASan */
+            double *c = (double *)calloc((size_t)deg + 1, sizeof(double)), *c1 = (double *)calloc((size_t)deg, sizeof(double)),
+                   *c2 = (double *)calloc((size_t)deg - 1, sizeof(double)), *c3 = (double *)calloc((size_t)deg - 2, sizeof(double));
             a_trajpoly3 t3;
             a_trajpoly5 t5;
             a_trajpoly7 t7;
@@ -99,6 +102,7 @@ int main(int argc, char **argv)
                 fputc('}', f);
             }
             fputs("]}\n", f);
+            free(c); free(c1); free(c2); free(c3);
             ++ntraj;
         }
         else
